@@ -260,11 +260,24 @@ func (eng *Engine) solve(o *Obligation, timeoutMs int, all bool) {
 			fileA = write(ft, ".a")
 		}
 		// A1: one fast solver alone; A2: the other two
-		if st, sv, ms := race(fileA, solvers[:1], 1500, "unsat", "/a"); st == "unsat" {
+		first, rest := solvers[:1], solvers[1:]
+		if strings.Contains(o.Goal.S, "(exists ") {
+			// goals with an existential under a universal: the older z3 finds the
+			// witness by E-matching in well under a second where z3-new needs
+			// several seconds and cvc5 gives up (measured on
+			// updateHealthyTargets/loop1:subset) - start with it
+			for i, sp := range solvers {
+				if sp.name == "z3" {
+					first = solvers[i : i+1]
+					rest = append(append([]solverSpec(nil), solvers[:i]...), solvers[i+1:]...)
+				}
+			}
+		}
+		if st, sv, ms := race(fileA, first, 1500, "unsat", "/a"); st == "unsat" {
 			o.Status, o.Solver, o.TimeMs = st, sv, ms
 			return
 		}
-		if st, sv, ms := race(fileA, solvers[1:], 3000, "unsat", "/a"); st == "unsat" {
+		if st, sv, ms := race(fileA, rest, 3000, "unsat", "/a"); st == "unsat" {
 			o.Status, o.Solver, o.TimeMs = st, sv, ms
 			return
 		}
@@ -375,7 +388,7 @@ func (eng *Engine) solveAll(obls []*Obligation, timeoutMs int, all bool) {
 		byText[t] = append(byText[t], o)
 	}
 	var wg sync.WaitGroup
-	sem := make(chan struct{}, 12)
+	sem := make(chan struct{}, 8)
 	for _, t := range order {
 		rep := byText[t][0]
 		wg.Add(1)
